@@ -9,6 +9,12 @@ use crate::spec::*;
 
 pub const T0: u64 = 1_700_000_000;
 
+/// thorough tier: longer histories, more threads and ops per thread
+pub static THOROUGH: std::sync::atomic::AtomicBool = std::sync::atomic::AtomicBool::new(false);
+pub fn thorough() -> bool {
+    THOROUGH.load(std::sync::atomic::Ordering::Relaxed)
+}
+
 #[derive(Clone, Debug)]
 pub struct Profile {
     pub prop: &'static str,
@@ -912,6 +918,10 @@ impl Gen {
 }
 
 pub fn generate(prop: &str, seed: u64) -> Trace {
-    let p = profile(prop);
+    let mut p = profile(prop);
+    if thorough() {
+        p.max_ops = p.max_ops * 2;
+        p.min_ops = p.min_ops + p.min_ops / 2;
+    }
     Gen::new(seed, p).trace(seed)
 }
